@@ -10,7 +10,7 @@ CLAIM = ('Real UTXO-encoding code executed symbolically against reference coders
          'compressed bytes equal the reference, decompression restores the identical script; every selector 0..3 with any payload decompresses to a script that compresses back to it. '
          '(4) Coin::Serialize/Unserialize and TxInUndoFormatter with TxOutCompression/ScriptCompression/AmountCompression: record layout equals the documented layout (reference decoder), deserialization returns the identical coin and consumes the record, '
          'for the listed (height, coinbase, amount-code) header tuples, symbolic amount and symbolic script bytes of the script kinds raw / P2PKH / P2SH / P2PK-compressed (whole records with an uncompressed key do not finish; that form is covered at the CompressScript/DecompressScript level). '
-         'Conditional on stubs: secp256k1 point validity/decompression (uncompressed keys), amount codec cut out of (4). Not covered: scripts longer than MAX_SCRIPT_SIZE (replaced by OP_RETURN on read), LevelDB key encoding, symbolic VARINT lengths inside whole records.')
+         'Conditional on stubs: secp256k1 point validity/decompression (uncompressed keys), amount codec cut out of (4). The MAX_SCRIPT_SIZE boundary of the read side (10000 bytes read back in full, 10001 replaced by OP_RETURN with the payload skipped) is decided by harness sizelimit on a counting stream. Not covered: LevelDB key encoding, symbolic VARINT lengths inside whole records.')
 INT = ['cvc5int', 'cvc5int-di', 'cvc5int-bw']
 WIT = ['cvc5int', 'kissat', 'default']
 AUS = lambda v: '_Z14CompressAmountm.0:%d,_Z16DecompressAmountm.0:%d' % (v['VEXP'] + 2, v['VEXP'] + 2)
@@ -51,4 +51,8 @@ HARNESSES = [
     H('record', 'coin.cpp', 'h_record', link=LNK, variants=R_Q, tvariants=R_T, backends=['default', 'kissat'], unwind=12, memunwind=240, unwindset=','.join('h_record.%d:260' % i for i in range(24)), timeout=400, diff_runs=12,
       stubs=ST_EC + ST_AM, functions=['Coin::Serialize/Unserialize (coins.h)', 'TxInUndoFormatter (undo.h)', 'TxOutCompression', 'ScriptCompression', 'AmountCompression (compressor.h)', 'VARINT'],
       bounds='header tuples (kind, script length, height, coinbase, amount code, undo?) quick %s; amount symbolic 0..21e14; script bytes symbolic (first 8 and last 34)' % [tuple(v.values()) for v in R_Q]),
+    H('sizelimit', 'sizelimit.cpp', 'h_sizelimit', link=LNK, variants=[{'L': l} for l in (9, 9999, 10000, 10001)], tvariants=[{'L': l} for l in (9, 100, 122, 123, 9999, 10000, 10001, 16505, 16506)], unwind=16600, memunwind=16600, timeout=600, objbits=10, diff_runs=8,
+      functions=['ScriptCompression::Ser / Unser (compressor.h)', 'VARINT read/write (serialize.h)', 'CompressScript (no special form)', 'prevector::resize'],
+      stubs=['stream = harness CountStream: header bytes (reads/writes of <= 8 bytes) exact, bulk payload only counted (first/last byte marked)', 'CPubKey::IsFullyValid/Decompress nondeterministic (unreached: first script byte is OP_1)'],
+      bounds='script lengths 9, 9999, 10000 (= MAX_SCRIPT_SIZE), 10001 (thorough adds 100, 122/123 and 16505/16506: VARINT length boundaries); payload bytes are not materialised'),
 ]
